@@ -942,6 +942,16 @@ where
         self.process_internal_events().await
     }
 
+    /// Like `verif_process_internal`, but handles exactly one pending internal event
+    /// (None when nothing is pending), so that observers can look between two events.
+    pub async fn verif_process_one_internal(&mut self) -> Option<Result<()>> {
+        while let Ok(ev) = self.internal_event_rx.try_recv() {
+            self.buffered_internal_event.push_back(ev);
+        }
+        let ev = self.buffered_internal_event.pop_front()?;
+        Some(self.handle_internal_event(ev).await)
+    }
+
     /// The P1 arm: one role tick.
     pub async fn verif_tick(&mut self) -> Result<()> {
         let internal_event_tx = &self.internal_event_tx;
